@@ -32,6 +32,8 @@ type c21Call struct {
 	turns     int // exchange: planned number of Exchange calls
 	cancelAt  int // cancel a live stream after this many results (-1 = never)
 	afterFail int // calls made after the first failure
+	// lateCancelTurn: the exchange turn during whose decoding the caller cancels (-1 none)
+	lateCancelTurn int
 	lateCxl   bool
 	big       bool // one turn is far beyond the client's response limits
 	ctxShort  int  // op index that runs under a short context deadline (-1 = none)
@@ -132,7 +134,7 @@ func C21(e *simkern.Env) {
 		n := 1 + tp.Draw(maxCalls)
 		var mine []*c21Call
 		for k := 0; k < n; k++ {
-			c := &c21Call{id: id, cancelAt: -1, ctxShort: -1}
+			c := &c21Call{id: id, cancelAt: -1, ctxShort: -1, lateCancelTurn: -1}
 			nonce := int64(100 + id)
 			id++
 			switch tp.Weighted([]int{4, 3, 1}) {
@@ -163,6 +165,9 @@ func C21(e *simkern.Env) {
 			}
 			c.afterFail = 1 + tp.Draw(3)
 			c.lateCxl = tp.Bool(1, 2)
+			if tp.Bool(1, 6) {
+				c.lateCancelTurn = tp.Draw(4)
+			}
 			c.st = &clientw.Stream{ID: c.id, Kind: c.kind, Label: c.method, Plan: map[int]*clientw.Fault{}}
 			if !faultFree {
 				// expected number of requests of this call
@@ -221,7 +226,22 @@ func C21(e *simkern.Env) {
 		})
 		net := &clientw.Net{H: cl.Inst[0].H, IdentityForward: identityFwd}
 		hc := &http.Client{Transport: net}
-		opts := []vgirpc.HttpClientOption{vgirpc.WithClientHTTPClient(hc), vgirpc.WithClientLogHandler(func(vgirpc.LogMessage) { sim.Probe("client-log-delivered") })}
+		// the caller may give up while a response is being decoded: its log
+		// handler (caller code that runs in the middle of the decoding) cancels
+		// the context of the running operation when the plan says so
+		lateCancel := map[string]func(){}
+		lateFired := map[string]bool{}
+		opts := []vgirpc.HttpClientOption{vgirpc.WithClientHTTPClient(hc), vgirpc.WithClientLogHandler(func(vgirpc.LogMessage) {
+			sim.Probe("client-log-delivered")
+			if t := sim.Current(); t != nil {
+				if f := lateCancel[t.Name]; f != nil {
+					delete(lateCancel, t.Name)
+					sim.Fault("caller-cancels-while-decoding")
+					lateFired[t.Name] = true
+					f()
+				}
+			}
+		})}
 		if !faultFree {
 			hc.Timeout = timeout
 			net.MaxEnc, net.MaxDec = maxEnc, maxDec
@@ -231,6 +251,10 @@ func C21(e *simkern.Env) {
 		if err != nil {
 			e.Harness("NewHttpClient: %v", err)
 			return
+		}
+		net.OnForeignCursor = func(s, owner *clientw.Stream, x *clientw.Xchg) {
+			e.Violate("cursor-replayed", "cursor-of-another-stream",
+				"call %d (%s): request #%d carries a cursor that belongs to call %d (%s)", s.ID, s.Label, x.Idx, owner.ID, owner.Label)
 		}
 		net.OnReplay = func(s *clientw.Stream, r *clientw.ReplayInfo) {
 			op := "exchange"
@@ -458,11 +482,24 @@ func C21(e *simkern.Env) {
 				var cb *vgirpc.ClientBatch
 				var xerr error
 				wasDead := dead
+				me := ""
+				if t := sim.Current(); t != nil {
+					me = t.Name
+				}
 				xreqs := guarded(c, "exchange", func() {
 					ctx, cancel := opctx(c)
+					if c.lateCancelTurn == turn && !faultFree {
+						var cancel2 context.CancelFunc
+						ctx, cancel2 = context.WithCancel(ctx)
+						defer cancel2()
+						lateCancel[me] = cancel2
+					}
 					defer cancel()
 					cb, xerr = stream.Exchange(ctx, in)
 				})
+				delete(lateCancel, me)
+				lateHit := lateFired[me]
+				delete(lateFired, me)
 				in.Release()
 				if e.Violated() {
 					return
@@ -488,6 +525,15 @@ func C21(e *simkern.Env) {
 						return
 					}
 					sim.Probe("exchange-refused-locally")
+					failures++
+					continue
+				}
+				if xerr != nil && lateHit && wasDead == "" && len(xreqs) == 1 && xreqs[0].Fault == "" {
+					// the caller cancelled while the (intact) answer was being
+					// decoded and the client reported the turn as failed: for the
+					// caller that is an ambiguous outcome like any other
+					sim.Probe("late-cancel-reported-as-failure")
+					dead = "caller-cancelled-late"
 					failures++
 					continue
 				}
